@@ -112,7 +112,32 @@ def run_segbuf(ctx):
                             "tlc -simulate MC_SegBuffer_sim.cfg -> rvh replay-segbuf (%d behaviours)" % total)
 
 
-MODULES = {"bpq": run_bpq, "segbuf": run_segbuf}
+def run_bloom(ctx):
+    """Bloom.tla <-> ragc-core/src/bloom_filter.rs (hash as an uninterpreted function: laws hold for every hash assignment)."""
+    r = C.run_tlc("MC_Bloom", "MC_Bloom.cfg", workdir=ctx.work, workers=6, xmx="6g", timeout=1500, coverage=False)
+    C.tlc_must_pass(r, "MC_Bloom")
+    ctx.add_mc("MC_Bloom", r)
+    r = C.run_tlc("MC_Bloom", "MC_Bloom_replay.cfg", workdir=ctx.work, workers=6, xmx="6g", timeout=1500, coverage=False)
+    C.tlc_must_pass(r, "MC_Bloom replay")
+    ctx.add_mc("MC_Bloom_replay", r)
+    beh = [p[0] for (t, p) in r.printed if t == "REPLAY"]
+    if not beh:
+        raise C.ToolError("no REPLAY behaviours from MC_Bloom_replay")
+    path = os.path.join(ctx.work, "bloom.ndjson")
+    with open(path, "w") as fh:
+        fh.write("\n".join(beh) + "\n")
+    _, out, _, _ = C.rvh(["replay-bloom", "--in", path])
+    res = json.loads(out)
+    ctx.evaluations += res["behaviours"]
+    ctx.traces += res["behaviours"] - len(res["fails"])
+    ctx.nontrivial += sum(1 for b in beh if '"insert"' in b and ('"clear"' in b or '"resize"' in b))
+    ctx.sample({"bloom_replay_behaviour": json.loads(beh[len(beh) // 2])})
+    for j, f in enumerate(res["fails"][:5]):
+        ctx.violation("bloom_replay_%d" % j, {"kind": "REPLAY-Bloom", "sig": {"module": "Bloom", "kind": "replay"}, "fail": f})
+    ctx.checker_cmds.append("tlc MC_Bloom.cfg (every hash assignment over a 3-k-mer universe x 4 call sequences: NoFalseNegative, EmptySaysNo, CountsInserts); tlc MC_Bloom_replay.cfg -> rvh replay-bloom")
+
+
+MODULES = {"bpq": run_bpq, "segbuf": run_segbuf, "bloom": run_bloom}
 
 
 def run(ctx):
